@@ -56,6 +56,9 @@ type Case struct {
 	// distribution point arrives half, then the body waits - the context is
 	// cancelled at that very moment - and its Close takes 30 ms
 	StallPos int
+	// OnDelivery: the context is cancelled the moment the reply to request
+	// CancelAt is handed to the library (not on the request's arrival)
+	OnDelivery bool
 }
 
 func (c Case) desc() string {
@@ -67,7 +70,7 @@ func (c Case) desc() string {
 	case "panic":
 		return fmt.Sprintf("panic at=%v together=%v | %s", c.PanicAt, c.Together, c.Sc.Desc())
 	}
-	return fmt.Sprintf("cancel at=%d late=%v hang=%q stall-body-of=%d | %s", c.CancelAt, c.Late, c.Hang, c.StallPos-1, c.Sc.Desc())
+	return fmt.Sprintf("cancel at=%d late=%v hang=%q stall-body-of=%d on-delivery=%v | %s", c.CancelAt, c.Late, c.Hang, c.StallPos-1, c.OnDelivery, c.Sc.Desc())
 }
 
 // Record is what the child reports for one case.
@@ -273,6 +276,9 @@ func Cases(quick bool, seed int64) []Case {
 		for k := 0; k < n; k++ {
 			out = append(out, Case{Kind: "cancel", Sc: sc, CancelAt: k})
 			out = append(out, Case{Kind: "cancel", Sc: sc, CancelAt: k, Late: true})
+			if sc.CRLRoute == "http" {
+				out = append(out, Case{Kind: "cancel", Sc: sc, CancelAt: k, OnDelivery: true})
+			}
 		}
 		// cancellation while a CRL body is being read
 		for pos := 0; pos < sc.Len-1; pos++ {
@@ -1091,6 +1097,14 @@ func execCancel(rec *Record, c Case) {
 		}
 	}
 	env.Net.OnRequest = func(n int, r *netsim.Request) { trigger(n + int(fetchN.Load())) }
+	if c.OnDelivery {
+		env.Net.OnRequest = nil
+		env.Net.OnDeliver = func(n int) {
+			if n == c.CancelAt {
+				cancel()
+			}
+		}
+	}
 	if env.Fetcher != nil {
 		env.Fetcher.Hook = func(string) { trigger(env.Net.Requests() + int(fetchN.Add(1)) - 1) }
 	}
